@@ -12,6 +12,8 @@
   Model: KatdalModel/Model/Concat.lean (bookkeeping) and LazyIx.concatHead (index split).
 -/
 import KatdalModel.Model.Concat
+import KatdalModel.Lemmas.ConcatList
+import KatdalModel.Lemmas.CatPartition
 open Np Index Concat LazyIx
 
 namespace C19
@@ -124,11 +126,60 @@ theorem c19_indices_continue : ∀ (parts : List (List Nat × Nat)) (off : Nat),
       simp only at hxk
       omega
 
+/-- **Indexing across part boundaries returns the same as indexing the concatenated arrays**: for
+    every supported head index (integer incl. negative, slice with any start/stop and positive
+    stride, full-length mask, increasing in-range list) and every non-empty list of part lengths
+    (empty parts allowed), the rows read — as (part, position inside the part) pairs, in order —
+    are the rows numpy's meaning of the index selects on the concatenation (`locate` walks the
+    parts).  (The three lemma files behind it are shared with C05.) -/
+theorem c19_index_across_parts (lens : List Nat) (hlens : lens ≠ []) (ix : Ix) :
+    (match ix with
+      | .int i => -(total lens : Int) ≤ i ∧ i < total lens
+      | .slice _ _ c => c.getD 1 > 0
+      | .mask m => m.length = total lens
+      | .list l => l.Pairwise (· < ·) ∧ ∀ v ∈ l, 0 ≤ v ∧ v < total lens) →
+    concatHead lens ix = concatSpec lens ix := by
+  cases ix with
+  | int i => exact fun h => concatHead_int lens i h
+  | slice a b c => exact fun h => concatHead_slice lens hlens a b c h
+  | mask m => exact fun h => concatHead_mask lens m h
+  | list l => exact fun h => concatHead_list lens l h.1 h.2
+
+section sensors
+open Categorical
+variable {V : Type} [DecidableEq V]
+
+/-- **Every categorical sensor of the combined data set is the concatenation of the parts'**: the
+    per-dump list of `concatenate_categorical(parts)` is the parts' per-dump lists joined in
+    order, over the sum of the parts' dumps (theorem shared with C11). -/
+theorem c19_sensor_is_concatenation (parts : List (Cat V)) (hparts : ∀ p ∈ parts, p.Part) (hne : parts ≠ [])
+    (rep : Bool) :
+    ∃ c, concatenate parts rep = .ok c ∧ c.Part ∧
+      c.perDump = (parts.map Cat.perDump).flatten ∧ c.numDumps = (parts.map Cat.numDumps).sum :=
+  concat_spec parts hparts hne rep
+
+/-- **Merged target / subarray / spectral-window sensors partitioned back into the parts**
+    (concatdata.py:526-541): splitting the merged sensor at the part boundaries gives every part a
+    sensor over ONE shared list of unique values (the merged catalogue, so equal indices mean the
+    same target in every part) whose per-dump lists, joined, are the merged sensor's. -/
+theorem c19_merged_sensor_partitioned (c : Cat V) (h : c.Part) (s1 : Nat) (ss : List Nat)
+    (hs : (0 :: s1 :: ss).Pairwise (· < ·)) (hN : (0 :: s1 :: ss).getLastD 0 = c.numDumps) :
+    ∃ parts, c.partition (0 :: s1 :: ss) = .ok parts ∧
+      (∀ p ∈ parts, p.Part ∧ p.uniq = c.uniq) ∧ parts.length = (s1 :: ss).length ∧
+      (parts.map Cat.perDump).flatten = c.perDump := by
+  obtain ⟨parts, h1, h2, h3, h4⟩ := partition_spec c h 0 (s1 :: ss) hs (by omega)
+  refine ⟨parts, h1, h2, h3, ?_⟩
+  rw [h4, hN]
+  have hl := perDump_length c h.1
+  simp [← hl]
+
+end sensors
+
 example : splitMask [2, 3] [true, false, true, true, false] = [[true, false], [true, true, false]] := by decide
 example : offsetIndices [([0, 0, 1], 2), ([0, 1, 1], 2)] 0 = [[0, 0, 1], [2, 3, 3]] := by decide
 example : locate [2, 3] 0 3 = some (1, 1) := by decide
 -- the head-axis split of the concatenated indexer agrees with indexing the concatenation on
--- concrete boundary-spanning requests (the general theorem is not proved yet: see DESIGN.md)
+-- concrete boundary-spanning requests (instances of c19_index_across_parts)
 example : concatHead [3, 3] (.slice (some 1) (some 6) (some 2)) = concatSpec [3, 3] (.slice (some 1) (some 6) (some 2)) := by decide
 example : concatHead [2, 0, 3] (.list [1, 2, 4]) = concatSpec [2, 0, 3] (.list [1, 2, 4]) := by decide
 
